@@ -50,7 +50,7 @@ func (c03) Budget(tier string) int {
 	if tier == "thorough" {
 		return 120000
 	}
-	return 700
+	return 2000
 }
 
 var hashHeavy = []string{
